@@ -59,6 +59,7 @@ PROBES = ["waiter_parked_on_thread_lock_during_swap", "two_first_starts_racing",
           "screen_input_poll_step", "process_start_wrapped_by_someone_else_before_import",
           "write_cut_short", "terminal_without_echo_at_entry",
           "interpreter_without_shared_arrays", "synchronized_call_lasting_seconds",
+          "root_process_is_itself_a_subprocess",
           "process_start_failed_after_hand_over"]
 COMPONENTS = {
     "real": ["term_image.utils.lock_tty / query_terminal / read_tty / write_tty / get_cell_size",
@@ -178,6 +179,21 @@ def describe(prog, indent=0):
 
 
 def run(ch, ctx, fault=None):
+    # in some worlds the application itself runs inside a multiprocessing child of something
+    # that never loaded the library (a task runner): the processes it starts are synchronized
+    # with it all the same
+    import multiprocessing.process as mpp
+    real_parent = mpp._parent_process
+    if ch.bool("root_is_a_subprocess", 0.15):
+        mpp._parent_process = object()
+        ctx.probe("root_process_is_itself_a_subprocess")
+    try:
+        return _run(ch, ctx, fault)
+    finally:
+        mpp._parent_process = real_parent
+
+
+def _run(ch, ctx, fault=None):
     profile = Profile(name="XTerm", version="370",
                       answers={"da1", "decrqm", "xtversion", "14t", "16t", "osc10", "osc11"})
     # (a buffered stdout: what the screen writes reaches the terminal at its flush())
